@@ -224,7 +224,10 @@ def render(doc, lay):
         elif lay['cont'] == 'name':
             phys = [LEAD + toks[0] + SEP + '\\' + TRAILB, LEAD + SEP.join(toks[1:])]
         else:
-            phys = [LEAD + t + SEP + '\\' for t in toks[:-1]] + [LEAD + toks[-1]]
+            # the backslash-newline pair itself separates tokens (IDL's yanny_nextline overwrites the backslash with a blank):
+            # with single-blank separators every second continuation has the backslash directly after the token and the
+            # next physical line starts in column 0
+            phys = [LEAD + t + ('' if (sepk == 'one' and i % 2 == 0) else SEP) + '\\' for i, t in enumerate(toks[:-1])] + [LEAD + toks[-1]]
         phys[-1] = phys[-1] + tcomment() + TRAILB
         per[ti].append(phys)
     if lay['inter'] == 'grouped':
